@@ -96,15 +96,27 @@ class SymRandomState(_np.random.RandomState):
         return shp, n
 
     def _draw(self, fn, kind, size):
+        """n draws of one kind. The history is a tuple of runs (kind, count): consecutive draws of the
+        same kind extend the current run, because numpy's legacy generator produces the same numbers for
+        random_sample(2) and two random_sample() calls (same for standard_normal / randint with equal bounds)."""
         shp, n = self._n(size)
-        h = _hid(self._hist)
-        vals = [fn(self._seed, z3.IntVal(h), z3.IntVal(i)) for i in range(n)]
-        self._hist = self._hist + ((kind, n),)
+        if self._hist and self._hist[-1][0] == kind:
+            prefix, start = self._hist[:-1], self._hist[-1][1]
+        else:
+            prefix, start = self._hist, 0
+        h = _hid(prefix)
+        vals = [fn(self._seed, z3.IntVal(h), z3.IntVal(start + i)) for i in range(n)]
+        if n:
+            self._hist = prefix + ((kind, start + n),)
         self.draw_log.append((kind, n))
         c = core.ctx()
         if not hasattr(c, "draw_terms"):
             c.draw_terms = []
         c.draw_terms.extend(vals)
+        if not hasattr(c, "draw_records"):
+            c.draw_records = []
+        for i, v in enumerate(vals):
+            c.draw_records.append((self._seed, prefix, start + i, kind, v))
         return shp, vals
 
     def random_sample(self, size=None):
